@@ -21,11 +21,43 @@ Ltac norm_facts :=
   unfold pkg_rstrip, pkg_fmt_sep, url_dir_suffix, redirect_append, redirect_qs_sep, secure_join_sep, char1 in *;
   cbn [hd app] in *.
 
-Ltac monad :=
+Ltac monad0 :=
   norm_facts;
   unfold ebind, eret, eraise, lift, p_isdir, p_exists, p_path_url, p_view_tuple, p_sort_by_size, p_file_response,
          get_fm, set_fm, bind, ret, stat in *;
   cbn [fst snd app] in *.
+
+(* ------------------------------------------------------------ add_slash_redirect *)
+Definition asr_model (c : config) (rq : request) (pi : text) (fm : filemap) : M (outcome resp * filemap) :=
+  match path_url c pi with
+  | None => ((Raise (RExc 2), fm), [])
+  | Some u => ((Val (redirect rq u), fm), [])
+  end.
+
+Theorem gen_add_slash_redirect_is_model c rq pi fm : gen_add_slash_redirect c rq pi fm = asr_model c rq pi fm.
+Proof.
+  unfold gen_add_slash_redirect, asr_model, redirect. monad0.
+  destruct (path_url c pi) as [u|]; cbn [fst snd app]; [|reflexivity].
+  destruct (r_qs rq) as [|q0 q]; cbn [nonempty_text fst snd app]; rewrite ?app_nil_r, <- ?app_assoc; reflexivity.
+Qed.
+
+(* calls of the regenerated add_slash_redirect are replaced by its model before the case analysis goes on *)
+Ltac monad := monad0; rewrite ?gen_add_slash_redirect_is_model in *; unfold asr_model in *.
+
+(* ------------------------------------------------------------ _compile_content_encodings *)
+Theorem gen_compile_content_encodings_is_model encmap encs :
+  gen_compile_content_encodings encmap encs = compile_encodings encs encmap.
+Proof.
+  unfold gen_compile_content_encodings, compile_encodings.
+  match goal with
+  | |- ?F encmap ?init = _ =>
+      enough (H : forall l acc,
+                F l acc = fold_left (fun res p => if mem_text (snd p) encs then compile_add res (snd p) (fst p) else res) l acc)
+        by apply H
+  end.
+  induction l as [|x l IH]; intros acc; [reflexivity|]. cbn [fold_left].
+  destruct (mem_text (snd x) encs); apply IH.
+Qed.
 
 Ltac cases :=
   repeat (monad;
@@ -82,7 +114,8 @@ Theorem gen_get_resource_name_subpath c rq pi fs sub fm :
 Proof.
   unfold gen_get_resource_name, get_resource_name, wrap_rn. rewrite gen_secure_path_is_model.
   destruct (secure_path sub) as [path|]; unfold with_url, dir_or_redirect, redirect;
-    cases; try reflexivity; try congruence.
+    cases; try reflexivity; try congruence;
+    repeat match goal with H : Some _ = Some _ |- _ => injection H as <- end; reflexivity.
 Qed.
 
 Theorem gen_get_resource_name_path_info c rq pi fs sub fm :
@@ -96,7 +129,8 @@ Proof.
   destruct (view_tuple pi) as [r|t]; [reflexivity|].
   unfold get_resource_name, wrap_rn. monad. rewrite gen_secure_path_is_model.
   destruct (secure_path t) as [path|]; unfold with_url, dir_or_redirect, redirect;
-    cases; try reflexivity; try congruence.
+    cases; try reflexivity; try congruence;
+    repeat match goal with H : Some _ = Some _ |- _ => injection H as <- end; reflexivity.
 Qed.
 
 (* ------------------------------------------------------------ find_best_match *)
